@@ -61,10 +61,19 @@ def family(name, n):
         if n == 1:
             return (lambda x: 2.0 * (x - 1.0)), (lambda x: 2.0 * np.eye(1)), True
         return rosen_der, rosen_hess, True
+    # families on which Newton from the harness starts produces a NON-FINITE residual at some iterate >= 1 (the root exists;
+    # seeded C22-f / C21-e: a NaN error must not count as converged)
+    if name == "logdom":   # iterate leaves the domain of log
+        return (lambda x: np.log(x) + 2.0 + 0.1 * idx), (lambda x: np.diag(1.0 / x)), True
+    if name == "sing":     # Jacobian exactly singular at the first start (x0 = 1.5 + 0.1 i)
+        s0 = 1.5 + 0.1 * np.arange(n)
+        return (lambda x: (x - s0) ** 2 - 1.0), (lambda x: np.diag(2 * (x - s0))), True
+    if name == "atan":     # diverging iteration that overflows
+        return (lambda x: np.arctan(x + 3.5)), (lambda x: np.diag(1.0 / (1.0 + (x + 3.5) ** 2))), True
     raise KeyError(name)
 
 
-FS_FAMILIES = ["lin1", "lin1e4", "lin1e10", "quad", "noroot", "exp", "rosen"]
+FS_FAMILIES = ["lin1", "lin1e4", "lin1e10", "quad", "noroot", "exp", "rosen", "logdom", "sing", "atan"]
 FS_MODES = ["exact", "2-point", "3-point", "cs", "superlu", "inexact"]
 TOLS = [1e-4, 1e-8, 1e-12]
 MAXIT = [1, 2, 5, 20]
@@ -98,7 +107,10 @@ def check_fsolve(case, seed):
                 args = dict(jac=None)
             elif mode == "superlu":
                 opts = SolverOptions(**kw)
-                args = dict(jac=splu(jac(x0)))
+                try:
+                    args = dict(jac=splu(jac(x0)))
+                except RuntimeError:  # harness-side factorisation of an exactly singular start Jacobian: letter not applicable
+                    continue
             elif mode == "inexact":
                 opts = SolverOptions(**kw)
                 args = dict(jac=jac, inexact=True)
@@ -116,12 +128,15 @@ def check_fsolve(case, seed):
             evals += 1
             msgs = [str(m.message) for m in w if not str(m.message).startswith("'approx_fprime' is used")
                     and not issubclass(m.category, (np.exceptions.ComplexWarning,)) and "SparseEfficiencyWarning" not in m.category.__name__
-                    and m.category.__name__ not in ("MatrixRankWarning",)]
+                    and m.category.__name__ not in ("MatrixRankWarning", "RuntimeWarning")]
             nonconv_msgs = [m for m in msgs if m]
             letters = {"family": name, "n": n, "start": si, "atol": atol, "rtol": rtol, "max_iter": mi, "mode": mode}
             f0 = np.atleast_1d(fun(x0))
             scale = atol + np.abs(f0) * rtol
-            fx = np.atleast_1d(fun(np.asarray(sol.x, float)))
+            with np.errstate(all="ignore"):
+                fx = np.atleast_1d(fun(np.asarray(sol.x, float)))
+            if not np.all(np.isfinite(fx)):
+                outcomes.add("fsolve:non-finite residual at returned point")
             err = float(np.linalg.norm(fx / scale) / scale.size ** 0.5)
             if sol.success:
                 outcomes.add("fsolve:success")
